@@ -184,7 +184,7 @@ def _build(desc, argmap, name):
         t = set()
         for r in desc[1]:
             t |= taint_of(argmap.get(r))
-        return AList([], elem=Unk(name + '[]', taint=t))
+        return AList([], elem=Unk(name + '[]', taint=t, src=('summary-elem', name)))
     if kind == 'dict':
         return ADict({}, open_=True, name=name)
     return Unk(name)
